@@ -295,6 +295,60 @@ def observe(res, conn="c1"):
             "garbage": cr["garbage"] if cr else "", "read_err": cr["read_err"] if cr else ""}
 
 
+def dominant_of(local_id, remote_id, local_as, remote_as):
+    return local_id > remote_id or (local_id == remote_id and local_as > remote_as)
+
+
+def mgr_ints(res, passive, dominant):
+    """hook events of the peer manager -> the event encoding of op 70"""
+    out = [1 if passive else 0, 1 if dominant else 0]
+    d = {"0": 0, "1": 1}
+    for e in res.get("events") or []:
+        k, a = e["kind"], e["args"]
+        if k == "m.enable":
+            out += [12, d[a[0]]]
+        elif k == "m.trans":
+            out += [1, d[a[0]], STATE_NUM[a[1]], STATE_NUM[a[2]]]
+        elif k == "m.reply":
+            out += [11, d[a[0]], STATE_NUM[a[1]], STATE_NUM[a[2]]]
+        elif k == "m.disable":
+            out += [10, d[a[0]]]
+        elif k == "m.err":
+            ec = a[2]
+            damp = ec.startswith("notif.") and ec.split(".")[2] != "6"
+            out += [2, d[a[0]], 1 if damp else 0]
+        elif k == "m.damp":
+            out += [13]
+        elif k == "m.timer":
+            out += [4]
+        elif k == "m.conn":
+            out += [3, 1 if a[0] == "true" else 0, 1 if a[1] == "true" else 0, STATE_NUM[a[2]]]
+        elif k == "m.close":
+            out += [5]
+        elif k == "m.done":
+            out += [14]
+        elif k == "m.collide.stopped":
+            out += [6]
+        elif k == "m.collide.other":
+            out += [7, STATE_NUM[a[1]], STATE_NUM[a[2]]]
+    return out
+
+
+def mgr_replay(results, scenarios, remote_ids):
+    """replay every recorded peer-manager history through the extracted model; returns a list of
+    (index, verdict tokens) for histories on which peer.go and the model diverge"""
+    lines = []
+    for r, sc, rid in zip(results, scenarios, remote_ids):
+        dom = dominant_of(sc["local_id"], rid, sc["local_as"], sc["remote_as"])
+        lines.append("70 " + " ".join(str(x) for x in mgr_ints(r, sc["passive"], dom)))
+    outs = run_parallel(os.path.join(BIN, "model_driver"), lines)
+    bad = []
+    for i, o in enumerate(outs):
+        if not o.startswith("1 "):
+            bad.append((i, o, lines[i]))
+    return bad, len(lines)
+
+
 def run_sys(scenarios, par=24, timeout=600):
     """Run scenarios in one driver process; on a crash, isolate the crashing scenario(s)."""
     binary = os.path.join(BIN, "sys")
